@@ -808,6 +808,8 @@ pub fn block_on<F: Future>(fut: F) -> F::Output {
 impl Rt {
     pub fn fire_plan_event(&mut self, i: usize) -> PlanEventKind {
         self.plan_fired[i] = true;
+        let id = self.plan.events[i].id.clone();
+        self.ev("plan-event", &id);
         self.plan.events[i].kind.clone()
     }
 }
